@@ -8,6 +8,7 @@ from mc.framework import Result
 
 ID = "C18"
 LEVEL = "model_checking"
+RNG_LAW_PROPERTY = True   # see framework._work: a library-side random.seed() is a violation
 BATCH = 8
 RULE = ("for every labelled graph in the box (edgeless and disconnected included), stars with 1..5 leaves, and phi in "
         "{0,1/4,1/2,3/4,1} (plus 1/10 and 999/1000 for graphs with <= 4 edges), stateless DFS over every outcome of the per-edge comparison of a symbolic uniform with phi "
